@@ -21,10 +21,10 @@ pub const INFO: PropInfo = PropInfo {
     assumptions: &[
         "(W) heads are at most 1024 bytes — what fits the fixed 1 KiB buffer, an implementation limit the statement does not mention; longer heads are class G",
         "(W) header values contain no CR/LF/NUL and no leading/trailing space; query pairs have non-empty keys, contain '=' and no '+'",
-        "the whole client input arrives as one segment and is read by one read (segmentation is C06's quantifier)",
+        "the whole client input arrives as one segment and is read by one read (segmentation is C06's quantifier); a quarter of the well-formed requests additionally arrive cut in two, biased to the end of the head",
         "custom header names are looked up by handlers in lower case; standard ones through the typed accessors and get()",
     ],
-    expected_probes: &["w.body_crosses_1024", "w.repeated_header", "m.fin_inside_head", "m.fin_inside_body", "g.complete_answered", "m.connection_error_inside_request", "w.head_at_buffer_edge"],
+    expected_probes: &["w.body_crosses_1024", "w.repeated_header", "m.fin_inside_head", "m.fin_inside_body", "g.complete_answered", "m.connection_error_inside_request", "w.head_at_buffer_edge", "w.two_segments"],
 };
 
 #[derive(Clone, Debug, Serialize, Deserialize)]
@@ -59,6 +59,9 @@ pub struct Scenario {
     pub after: After,
     /// the bytes form a complete HTTP message (so the server has nothing to wait for)
     pub complete: bool,
+    /// class W only: the bytes arrive as two segments, cut at this offset, the second one this many ms later
+    #[serde(default)]
+    pub cut: Option<(usize, u64)>,
 }
 
 #[derive(Default)]
@@ -351,7 +354,20 @@ pub fn generate(cfg: &RunCfg, out: &mut Outcome) -> Scenario {
         1 => gen_mutation_m(&base, cfg, out),
         _ => gen_mutation_g(&base, cfg, out),
     };
-    Scenario { class: ["W", "M", "G"][class].to_string(), kind: kind.to_string(), base, bytes, after, complete }
+    // a well-formed request denotes the same thing when its bytes arrive in two pieces (C06 explores deliveries in depth;
+    // here one cut, biased to the end of the head, keeps "never a wait for input that already arrived" honest)
+    let cut = if class == 0 && bytes.len() > 2 && t::chance(1, 4) {
+        let hl = base.head_bytes().len().min(bytes.len() - 1);
+        let at = match t::weighted(&[2, 2, 1]) {
+            0 => 1 + t::draw((bytes.len() - 1) as u32) as usize,
+            1 => hl.saturating_sub(t::draw(5) as usize).max(1),
+            _ => (hl + t::draw(3) as usize).min(bytes.len() - 1),
+        };
+        Some((at, t::pick(&[0u64, 1, 30, 2000])))
+    } else {
+        None
+    };
+    Scenario { class: ["W", "M", "G"][class].to_string(), kind: kind.to_string(), base, bytes, after, complete, cut }
 }
 
 pub fn run(cfg: &RunCfg, direct: Option<&serde_json::Value>) -> Outcome {
@@ -430,7 +446,11 @@ fn execute(sc: &Scenario, out: &mut Outcome) {
 
     out.scenario = serde_json::to_value(sc).unwrap_or(serde_json::Value::Null);
     out.scenario["text"] = json!(String::from_utf8_lossy(bytes).chars().take(400).collect::<String>());
-    out.scenario_hash = rt::fnv64(format!("{class_name}|{kind}|{}|{:?}", crate::client::hex(bytes), sc.after).as_bytes());
+    out.scenario_hash = rt::fnv64(format!("{class_name}|{kind}|{}|{:?}|{:?}", crate::client::hex(bytes), sc.after, sc.cut).as_bytes());
+    if sc.cut.is_some() {
+        out.probe("w.two_segments");
+        simcore::with(|w| w.count("fault.segment_cut"));
+    }
     let shown = format!("{:?}", String::from_utf8_lossy(bytes).chars().take(400).collect::<String>());
 
     // ---- world
@@ -441,12 +461,22 @@ fn execute(sc: &Scenario, out: &mut Outcome) {
     let head_req = bytes.starts_with(b"HEAD ");
     let bytes2 = bytes.clone();
     let after2 = sc.after.clone();
+    let cut = sc.cut;
     simcore::spawn_task("client", "client", async move {
         let mut c = match Client::connect(rt::ADDR, ConnCfg::default()).await {
             Ok(c) => c,
             Err(_) => return,
         };
-        c.send(&bytes2, 0);
+        match cut {
+            Some((at, gap)) if at > 0 && at < bytes2.len() => {
+                c.send(&bytes2[..at], 0);
+                if gap > 0 {
+                    simcore::sleep(gap * simcore::MS).await;
+                }
+                c.send(&bytes2[at..], 0);
+            }
+            _ => c.send(&bytes2, 0),
+        }
         match after2 {
             After::Fin(d) => {
                 c.send_fin(d);
